@@ -30,10 +30,13 @@ type LoadConfig struct {
 	Tags    string            // extra build tags
 	GOARCH  string            // "" = default
 	Overlay map[string][]byte // in-memory file replacements (witness mutants)
+	Inline  bool              // analyse the program with new (non-reference) helpers inlined at source level
 }
 
 // World is the resolved program.
 type World struct {
+	SplitReturns int // join-and-return blocks folded back into their predecessors (splitret.go)
+	InlineDescr string // helpers inlined at source level ("" = program as written)
 	useSites map[*ssa.Function][]ssa.Instruction
 	Cfg   LoadConfig
 	Fset  *token.FileSet
@@ -111,6 +114,18 @@ func Load(cfg LoadConfig) (*World, error) {
 		return nil, &loadError{"no syntax or types for the root package"}
 	}
 
+	inlineDescr := ""
+	if cfg.Inline {
+		d, ierr := inlineNewHelpers(root)
+		if ierr != nil {
+			return nil, &loadError{"inlining: " + ierr.Error()}
+		}
+		if d == "" {
+			return nil, &loadError{"inlining: no call of a new helper could be inlined"}
+		}
+		inlineDescr = d
+	}
+
 	prog, spkgs := ssautil.Packages(pkgs, ssa.InstantiateGenerics)
 	if len(spkgs) != 1 || spkgs[0] == nil {
 		return nil, &loadError{"SSA package construction failed"}
@@ -118,6 +133,7 @@ func Load(cfg LoadConfig) (*World, error) {
 	prog.Build()
 
 	w := &World{
+		InlineDescr: inlineDescr,
 		Cfg:    cfg,
 		Fset:   root.Fset,
 		Pkg:    root,
@@ -150,6 +166,7 @@ func Load(cfg LoadConfig) (*World, error) {
 	for _, fn := range w.Funcs {
 		canonicaliseComparisons(fn)
 		canonicaliseBranches(fn)
+		w.SplitReturns += splitReturns(fn)
 	}
 	w.indexCallSites()
 	curWorld = w
